@@ -16,7 +16,7 @@ res = {}
 try:
     if patch != '-' and sh('git -C %s apply %s' % (wt, patch)).returncode != 0: print('patch does not apply'); sys.exit(2)
     env = {'RULER_SRC': wt + '/src'}
-    if any(p in ('C01', 'C02', 'C04', 'C05', 'C06', 'C07', 'C08', 'C09', 'C10', 'C17', 'C18', 'C19', 'C20') for p in props):
+    if any(p in ('C01', 'C02', 'C04', 'C05', 'C06', 'C07', 'C08', 'C09', 'C10', 'C15', 'C17', 'C18', 'C19', 'C20') for p in props):
         # these checks also drive the real command-line tool: build it from the scratch worktree (shared dependency build)
         tdir = os.environ.get('WT_TARGET', '/tmp/wt/target_shared')
         b = sh('cd %s && CARGO_TARGET_DIR=%s cargo build --release --offline -q' % (wt, tdir))
